@@ -87,6 +87,8 @@ def parse(expr: str):
             expected = ParserState.Primary | ParserState.LParen | ParserState.Sign | ParserState.NullaryCall
         elif scanner.eat(Operator.RightParenthesis):
             priority -= 10
+            if priority < 0:
+                raise MathExpressionException('Unmatched "()"', scanner)
 
             if expected & ParserState.NullaryCall:
                 tokens.append(nullary)
